@@ -40,12 +40,12 @@ def apply_rewrites(text, rewrites, log, where):
             if rw.count is None:
                 if found:
                     text = rx.sub(rw.new, text)
-                    log.append({"item": where, "rule": rw.rule, "old_pattern": rw.old, "new_template": rw.new, "count": len(found), "why": rw.why})
+                    log.append({"item": where, "rule": rw.rule, "old_pattern": rw.old, "new_template": rw.new if isinstance(rw.new, str) else (rw.new.__doc__ or "computed"), "count": len(found), "why": rw.why})
                 continue
             if len(found) != rw.count:
                 raise Undecided("%s: rewrite pattern %r found %d times, expected %d" % (where, rw.old, len(found), rw.count))
             text = rx.sub(rw.new, text)
-            log.append({"item": where, "rule": rw.rule, "old_pattern": rw.old, "new_template": rw.new, "count": rw.count, "why": rw.why})
+            log.append({"item": where, "rule": rw.rule, "old_pattern": rw.old, "new_template": rw.new if isinstance(rw.new, str) else (rw.new.__doc__ or "computed"), "count": rw.count, "why": rw.why})
             continue
         n = text.count(rw.old)
         if n != rw.count:
